@@ -98,7 +98,7 @@ fn deferred_stmt(rng: &mut Rng, names: &[(Ex, Iv)], must: &[String]) -> String
 	let kind0: Vec<usize> = (0..TEMPL.len()).filter(|&i| TEMPL[i].kind == 0).collect();
 	let t = &TEMPL[*rng.pick(&kind0)];
 	let depth = 1 + rng.below(4) as u32;
-	let (e, (lo, hi)) = exprgen::gen_with(rng, depth, &Leaves{names}, must);
+	let (e, (lo, hi)) = exprgen::gen_with(rng, depth, &Leaves{names, kmask: i64::MAX}, must);
 	let pow2 = t.mask & (t.mask + 1) == 0;
 	let e = if pow2 && lo >= t.plus as i128 && hi <= (t.plus + t.mask) as i128 && rng.chance(2, 3) { e }
 		else if lo == hi && rng.chance(1, 2)
@@ -412,7 +412,9 @@ fn pick_slot(rng: &mut Rng) -> (String, bool)
 fn expr_over(rng: &mut Rng, names: &[(Ex, Iv)], must: &str) -> String
 {
 	let depth = *rng.pick(&[0u32, 0, 1, 1, 2, 3, 4]);
-	let (e, _) = exprgen::gen_with(rng, depth, &Leaves{names}, &[must.to_string()]);
+	// constants below 2^15: the symbolic merge of a chain like `((n / c1) / c2) / c3` multiplies the constants, and an
+	// overflow there would be reported at this statement before the end-of-file diagnostic the POS tag names
+	let (e, _) = exprgen::gen_with(rng, depth, &Leaves{names, kmask: 0x7FFF}, &[must.to_string()]);
 	let minimal = rng.chance(1, 2);
 	exprgen::show(&e, rng, minimal)
 }
@@ -461,7 +463,7 @@ fn invalid_stmt(g: &mut G) -> Inv
 		let mut names: Vec<(Ex, Iv)> = vec![(Ex::Raw(raw.clone()), (1, 0xFFFF)); 3];
 		if deferred { names.push((Ex::Name("IT9".into()), (24, 24))); names.push((Ex::Name("IT9".into()), (24, 24))); }
 		let depth = 1 + rng.below(4) as u32;
-		let (e, _) = exprgen::gen_with(rng, depth, &Leaves{names: &names}, &[raw.clone()]);
+		let (e, _) = exprgen::gen_with(rng, depth, &Leaves{names: &names, kmask: i64::MAX}, &[raw.clone()]);
 		let minimal = rng.chance(1, 2);
 		exprgen::show(&e, rng, minimal)
 	};
@@ -595,7 +597,7 @@ fn risky_align(src: &[u8]) -> bool
 				{
 					if run == 0 { run_starts_digit = c.is_ascii_digit(); }
 					run += 1;
-					if !run_starts_digit || run > 6 { return true; }
+					if !run_starts_digit || run > 5 { return true; }   // at most 99999 bytes of padding (the extracted model's list functions overflow the stack near 10^6)
 				}
 				else
 				{
